@@ -99,7 +99,7 @@ def case(draw, tier):
             el = {"int": st.integers(-9, 9), "float": _real_value(),
                   "complex": st.one_of(_real_value(), st.complex_numbers(max_magnitude=4, allow_nan=False, allow_infinity=False))}[vt]
             rows = [[draw(el) for _ in range(c)] for _ in range(r)]
-            vals[name] = {"array": rows, "ndarray": draw(st.booleans())}
+            vals[name] = {"array": rows, "ndarray": draw(st.booleans()), "memory": draw(st.sampled_from(["C", "F", "transposed-view", "reversed-view"]))}
         elif d["kind"] == "int":
             vals[name] = draw(st.integers(-6, 6))
         elif d["kind"] == "real" or draw(st.integers(0, 3)) > 0:
@@ -135,7 +135,18 @@ def _call_kwargs(vals):
     kw = {}
     for k, v in vals.items():
         if isinstance(v, dict):
-            kw[k] = np.array(v["array"]) if v["ndarray"] else [list(r) for r in v["array"]]
+            if v["ndarray"]:
+                a = np.array(v["array"])
+                mem = v.get("memory", "C")
+                if mem == "F":
+                    a = np.asfortranarray(a)
+                elif mem == "transposed-view":
+                    a = np.ascontiguousarray(a.T).T
+                elif mem == "reversed-view":
+                    a = np.ascontiguousarray(a[::-1])[::-1]
+                kw[k] = a
+            else:
+                kw[k] = [list(r) for r in v["array"]]
         else:
             kw[k] = v
     return kw
